@@ -70,6 +70,12 @@ func (ex *Exec) step(st *State, fr *Frame, ins ssa.Instruction) {
 		ex.doMapUpdate(st, fr, x)
 	case *ssa.Range:
 		fr.regs[x] = ex.val(fr, x.X) // iterator = the collection
+		if kindOf(x.X.Type()) == KMap {
+			mi := ex.mapInfo(x.X.Type())
+			s := ArrS(mi.ksort, SBool)
+			st.ghost[fmt.Sprintf("$visited_%p", x)] = Sc{fmt.Sprintf("((as const %s) false)", s), s}
+			ex.curRange = x
+		}
 	case *ssa.Next:
 		ex.doNext(st, fr, x)
 	case *ssa.Slice:
@@ -128,6 +134,7 @@ func (ex *Exec) doUnOp(st *State, fr *Frame, x *ssa.UnOp) {
 	switch x.Op {
 	case token.MUL: // load
 		a := ex.derefAddr(st, fr, v, x.X.Type(), x.Pos(), "")
+		ex.guardedAccess(st, fr, a, x.Pos())
 		lv := ex.load(st, a)
 		if a.Kind == AHeap || a.Kind == AElems || a.Kind == AGlobal {
 			ex.validRefs(st, lv, x.Type())
@@ -424,7 +431,9 @@ func (ex *Exec) doNext(st *State, fr *Frame, x *ssa.Next) {
 	gk := fmt.Sprintf("$visited_%p", rng)
 	if vis, has := st.ghost[gk]; has {
 		ex.assume(st, implies(ok, not(sel(sc(vis).T, k))))
+		// every key visited so far is (still) being iterated: it was in the map
 		st.ghost[gk] = Sc{ex.vc.Bind("visited", ArrS(mi.ksort, SBool), ite(ok, sto(sc(vis).T, k, "true"), sc(vis).T)), ArrS(mi.ksort, SBool)}
+		st.ghost["$curkey"] = Sc{k, mi.ksort}
 	}
 	v := ex.bindVal("rangeval", ex.mapGetRaw(st, mt, m, k))
 	ex.validRefs(st, v, mi.vt)
@@ -438,7 +447,7 @@ func (ex *Exec) doNext(st *State, fr *Frame, x *ssa.Next) {
 func (ex *Exec) doMakeSlice(st *State, fr *Frame, x *ssa.MakeSlice) {
 	ln := toIdx(ex.val(fr, x.Len), x.Len.Type())
 	cp := toIdx(ex.val(fr, x.Cap), x.Cap.Type())
-	ex.oblige(st, fr, "makeslice", x.Pos(), "", and(app("bvsle", z64(), ln), app("bvsle", ln, cp), app("bvsle", cp, bvInt(1<<40, 64))))
+	ex.oblige(st, fr, "makeslice", x.Pos(), "", and(app("bvsle", z64(), ln), app("bvsle", ln, cp), app("bvsle", cp, bvInt(1<<46, 64))))
 	fr.regs[x] = ex.newSlice(st, x.Type(), ln, cp, "make")
 }
 
@@ -734,7 +743,7 @@ func (ex *Exec) valEq(a, b Val, t types.Type) string {
 	}
 	var cs []string
 	for i := range la {
-		if la[i].S == SFP {
+		if la[i].S == SFP && !(ex.specEq && len(la) > 1) {
 			cs = append(cs, app("fp.eq", la[i].T, lb[i].T))
 		} else if la[i].S.IsArr() {
 			// array-valued leaf of a non-packed array: element-wise over its length
